@@ -468,7 +468,9 @@ func runRich(sc *richScenario) (labels []string, nontrivial bool, err error) {
 			}
 			var strayed interface{}
 			stray := false
+			condCalls := 0
 			cond := func(v interface{}) bool {
+				condCalls++
 				found := false
 				for _, k := range matches {
 					if sameValue(v, model[k].val) {
@@ -514,6 +516,9 @@ func runRich(sc *richScenario) (labels []string, nontrivial bool, err error) {
 			}
 			if stray {
 				return keysOfSet(lab), nontrivial, fmt.Errorf("%s: the condition was consulted for the value %s, which no leaf matching the path holds", what, describe(strayed))
+			}
+			if op.Kind != "del" && condCalls != len(matches) {
+				return keysOfSet(lab), nontrivial, fmt.Errorf("%s: the condition was consulted %d times, %d leaves match the path (one call puts every matching leaf to the condition once)", what, condCalls, len(matches))
 			}
 			if op.Kind != "walkdel" {
 				sort.Slice(got, func(a, b int) bool { return got[a].k < got[b].k })
